@@ -6,7 +6,7 @@ import ast
 from gridlint.core import norm
 
 
-def guarded_nodes(fn_node, inherited=()):
+def guarded_nodes(fn_node, inherited=(), mark_exits=False):
     """Yield (node, guards) for every node of the function (nested functions included, with the
     guards in force where they are *defined*).  guards is a tuple of (test text, polarity);
     an earlier `if T: raise/return` at the same block level contributes (T, False) to everything
@@ -18,7 +18,10 @@ def guarded_nodes(fn_node, inherited=()):
         for s in body:
             stmt(s, g)
             if isinstance(s, ast.If) and s.body and isinstance(s.body[-1], (ast.Raise, ast.Return)) and not s.orelse:
-                g = g + ((norm(s.test), False),)
+                # with mark_exits the polarity of a guard that only stems from an earlier `if T: raise`
+                # is None: the code is unconditional on every path that continues normally
+                only_raise = isinstance(s.body[-1], ast.Raise)
+                g = g + ((norm(s.test), None if (mark_exits and only_raise) else False),)
             elif isinstance(s, ast.If) and s.orelse and isinstance(s.orelse[-1], (ast.Raise, ast.Return)) and \
                     not (s.body and isinstance(s.body[-1], (ast.Raise, ast.Return))):
                 g = g + ((norm(s.test), True),)
